@@ -385,8 +385,16 @@ pub fn evalarms(repo: &Path) -> Result<String, String> {
     let value = find::parse(repo, "src/lir/value.rs")?;
     let mut out = header("EvalArms", &["src/lir/eval.rs", "src/lir/value.rs"]);
     out.push_str("variable [FloatOps]\n\n");
+    // (round 6) `f32::to_bits` / `f64::to_bits` have a meaning: the bit pattern as an unsigned
+    // integer, WITHOUT any IEEE meaning.  An equality arm written over `to_bits()` therefore becomes
+    // a Lean definition (bit equality) for which `eq_ok` / `eval_FloatCmp_agrees` are false at
+    // +0.0/-0.0 and NaN (`Props/C20: bit_eq_is_not_fcmp_eq`), instead of an extraction failure that
+    // leaves every theorem of the module unchecked.
+    out.push_str("/-- `f32::to_bits` / `f64::to_bits`: the bit pattern as an unsigned integer. -/\nclass RToBits (α : Type) (β : outParam Type) where\n  to_bits : α → β\ninstance : RToBits F32 U32 := ⟨fun x => ⟨x.bits⟩⟩\ninstance : RToBits F64 U64 := ⟨fun x => ⟨x.bits⟩⟩\n\n");
 
     let mut cx = base_cx();
+    cx.methods
+        .insert("to_bits".into(), Meth::Pure("RToBits.to_bits".into()));
     // value.rs uses `IrValue::*` / `Self::*` / bare variants
     for v in [
         "Bool", "U8", "U16", "U32", "U64", "I8", "I16", "I32", "I64", "F32",
